@@ -408,12 +408,16 @@ class POXCore (EventMixin):
       vwarn("Support for Python 3 is experimental.")
 
     self.starting_up = False
+
+    # Hold a deferral of our own so that stage 2 runs exactly once: when the
+    # last deferral (possibly this one) is released.
+    deferral = self._get_go_up_deferral()
+
     self.raiseEvent(GoingUpEvent())
 
     self._add_signal_handlers()
 
-    if not self._go_up_deferrals:
-      self._goUp_stage2()
+    deferral()
 
   def _get_go_up_deferral (self):
     """
@@ -428,6 +432,7 @@ class POXCore (EventMixin):
       if o not in self._go_up_deferrals:
         raise RuntimeError("This deferral has already been executed")
       self._go_up_deferrals.remove(o)
+      if self.starting_up: return # goUp() hasn't even begun yet
       if not self._go_up_deferrals:
         log.debug("Continuing to go up")
         self._goUp_stage2()
